@@ -42,7 +42,34 @@ def lvl(name, n):
 def metrics_einsums(draw, n_min=1, n_max=1, max_vars=3, allow_partition=True):
     """a cascade of simple product Einsums with explicit loop orders and spacetime for every Einsum"""
     n = draw(st.integers(n_min, n_max))
-    kind = draw(st.sampled_from(["plain"] * 6 + ["affine", "flatten"])) if n_min == 1 else "plain"
+    kind = draw(st.sampled_from(["plain"] * 5 + ["affine", "flatten", "lf3", "lf3"])) if n_min == 1 else "plain"
+    if kind == "lf3":
+        # three tensors co-iterated at one rank (leader-follower intersection of three fibers, any of them leading)
+        pl = gen.plain
+        shared = "k"
+        own = ["m", "n", "p"]
+        facs, decl, outv = [], [], []
+        for name, o in zip("ABC", own):
+            rs = [shared] + ([o] if draw(st.integers(0, 7)) > 0 else [])
+            rs = list(draw(st.permutations(rs)))
+            decl.append([name, [r.upper() for r in rs]])
+            facs.append({"t": name, "idx": [pl(r) for r in rs]})
+            if len(rs) > 1 and draw(st.integers(0, 3)) > 0:
+                outv.append(o)
+        facs = list(draw(st.permutations(facs)))
+        decl.append(["Z", [v.upper() for v in outv]])
+        spec = {"decl": decl, "exprs": [{"out": ["Z", [pl(v) for v in outv]], "terms": [{"take": None, "factors": facs}]}],
+                "rank_order": {}, "loop_order": {}, "partitioning": {}, "spacetime": {}, "extra": {}}
+        vs = [v.upper() for v in S.expr_vars(spec["exprs"][0])]
+        lo = list(draw(st.permutations(vs)))
+        if draw(st.booleans()):
+            lo = ["K"] + [r for r in lo if r != "K"]       # the shared rank outermost: the followers' payloads are fibers
+        spec["loop_order"]["Z"] = lo
+        k = draw(st.integers(0, len(lo)))
+        sp_ = lo[:k] if draw(st.booleans()) else []
+        spec["spacetime"]["Z"] = {"space": sp_, "time": [r for r in lo if r not in sp_]}
+        spec["hint"] = {"isect": [["K", ["A", "B", "C"]]], "type": "leader-follower"}
+        return spec, {}
     if kind == "affine":
         # a convolution: followers of a leader-follower intersector may need projection
         a, b = draw(st.sampled_from([1, 1, 2])), draw(st.sampled_from([1, 1, 2]))
@@ -60,6 +87,8 @@ def metrics_einsums(draw, n_min=1, n_max=1, max_vars=3, allow_partition=True):
         sp_ = spec["spacetime"]["Z"]["space"]
         spec["spacetime"]["Z"]["time"] = [r for r in lo if r not in sp_]
         spec["affine_extents"] = {"a": a, "b": b}
+        if lo == ["Q", "S"]:
+            spec["hint"] = {"isect": [["S", ["I", "F"]]], "type": None, "leaders": {"S": ["F"]}}
         return spec, {}
     if kind == "flatten":
         c = draw(gen.case_flat(max_extent=3, allow_scalars=False))
@@ -137,6 +166,11 @@ def hardware_for(draw, spec, configs=("accel",), force=None):
     n2 = draw(st.sampled_from([0, 1, 7]))
     buf_class = draw(st.sampled_from(["Buffet", "Buffet", "Cache"]))
     isect_type = draw(st.sampled_from([None, "two-finger", "skip-ahead", "leader-follower", "leader-follower"]))
+    hint = spec.get("hint") or {}
+    if hint.get("type"):
+        isect_type = hint["type"]
+    elif hint.get("isect") and isect_type is None:
+        isect_type = "leader-follower"
     has_seq = draw(st.integers(0, 2)) == 0
     has_merger = draw(st.integers(0, 2)) == 0
     has_reg = draw(st.integers(0, 2)) == 0
@@ -281,12 +315,13 @@ def hardware_for(draw, spec, configs=("accel",), force=None):
         if draw(st.integers(0, 4)) > 0:
             entry.append({"component": names["add"], "bindings": [{"op": "add"}]})
         expr = [e for e in spec["exprs"] if S.out_name(e) == out][0]
-        if isect_type and draw(st.integers(0, 3)) > 0:
+        if isect_type and (hint.get("isect") or draw(st.integers(0, 3)) > 0):
             # ranks where exactly two input tensors are co-iterated
-            cand = []
+            cand = [(r_, list(hs_)) for r_, hs_ in hint.get("isect", [])]
+            hinted = set(r_ for r_, _ in cand)
             for r in lo:
                 hs = [t for t, rs in per.items() if t != out and r in rs]
-                if len(hs) == 2 or (len(hs) == 3 and isect_type == "leader-follower"):
+                if r not in hinted and (len(hs) == 2 or (len(hs) == 3 and isect_type == "leader-follower")):
                     cand.append((r, hs))
             if cand:
                 chosen = list(draw(st.permutations(cand)))[:draw(st.sampled_from([1, 2, 2]))]
@@ -294,7 +329,8 @@ def hardware_for(draw, spec, configs=("accel",), force=None):
                 for r, hs in chosen:
                     b = {"rank": r}
                     if isect_type == "leader-follower":
-                        b["leader"] = draw(st.sampled_from(hs))
+                        # (for an index-math rank the leader must be the tensor that owns the rank)
+                        b["leader"] = draw(st.sampled_from(hint.get("leaders", {}).get(r, hs)))
                     bl.append(b)
                 entry.append({"component": names["isect"], "bindings": bl})
         if has_merger and draw(st.integers(0, 2)) > 0:
@@ -330,6 +366,7 @@ def case_metrics(draw, n_min=1, n_max=1, max_extent=4, configs=("accel",), with_
     else:
         spec["extra"] = extra
     aff = spec.pop("affine_extents", None)
+    spec.pop("hint", None)
     if with_inputs:
         ext = None
         if aff:
